@@ -2410,3 +2410,8 @@ fire("c11-distribute-nonpositive-exponent", ["C11"], DSF,
 silent("c11-distribute-exponent-ge-one", ["C11"], DSF,
        "        if isinstance(expr.exponent, int) and expr.exponent > 0:\n",
        "        if isinstance(expr.exponent, int) and not expr.exponent < 1:\n")
+
+fire("c11-collector-refuses-quotient-terms", ["C11"], COL,
+     "        elif isinstance(mul_term, (Power, AlgebraicLeaf, Quotient)):",
+     "        elif isinstance(mul_term, (Power, AlgebraicLeaf)):",
+     "S/collector/accepts-distributor-terms:Quotient")
